@@ -113,6 +113,8 @@ impl WhereClauseBuilder {
             let ty = match ty {
                 Type::TraitObject(t) if (t.bounds.len() > 1 || t.bounds.trailing_punct()) => syn::parse_quote!((#ty)),
                 Type::ImplTrait(t) if (t.bounds.len() > 1 || t.bounds.trailing_punct()) => syn::parse_quote!((#ty)),
+                // `fn(T): Trait` is read as a function type with a misspelt return type.
+                Type::BareFn(t) if matches!(t.output, syn::ReturnType::Default) => syn::parse_quote!((#ty)),
                 // `where <T>::Assoc: Trait` is read as generic parameters on the where-clause, `(<T>::Assoc): Trait` is not.
                 Type::Path(p) if matches!(&p.qself, Some(q) if q.as_token.is_none()) => syn::parse_quote!((#ty)),
                 _ => ty.clone(),
